@@ -10,6 +10,8 @@ use std::sync::Mutex;
 pub struct Event {
     /// position in the global order (assigned under the recorder's lock)
     pub seq: u64,
+    /// 0 = a worker took the packet; other values are set by the test driver through `record`
+    pub kind: u8,
     /// worker index taken from the thread name (`*-worker-N`), -1 if not a worker thread
     pub worker: i64,
     /// FNV-1a hash of the packet bytes
@@ -51,15 +53,19 @@ fn worker_index() -> i64 {
         .unwrap_or(-1)
 }
 
+/// Appends an event to the global order.
+pub fn record(kind: u8, tag: u64) {
+    let worker = worker_index();
+    if let Ok(mut g) = EVENTS.lock() {
+        let seq = g.len() as u64;
+        g.push(Event { seq, kind, worker, tag });
+    }
+}
+
 /// Called by a pool worker for every packet it takes from its queue, before analysing it.
 pub fn worker_packet(packet: &[u8]) {
     perturb(1);
-    let worker = worker_index();
-    let t = tag(packet);
-    if let Ok(mut g) = EVENTS.lock() {
-        let seq = g.len() as u64;
-        g.push(Event { seq, worker, tag: t });
-    }
+    record(0, tag(packet));
     perturb(2);
 }
 
